@@ -18,7 +18,7 @@ import (
 func init() {
 	Register(&Spec{
 		ID:          "C08",
-		Explanation: "Decides structural necessary conditions of robustness against a hostile peer: (R1) every index into Conn.questions/exports/embargoes is justified by a dominating length test, a non-nil find* result for the same id, or an id that comes from the local id generator; (R2) every entry read from a Conn table (or returned by findExport/findEmbargo) is tested non-nil before a field is accessed; (R3) the error passed to annotate/errors.Annotate (which panics on nil) is proven non-nil on its path, and a known-nil argument is always reported; (R4) a func-typed struct field that some site believes can be nil is tested before every call through it; (R5) message dispatch switches have non-panicking defaults and the target switch in handleCall covers what parseMessageTarget accepts; (R6) the error of every handler reaches receive's return; (R7) the explicit panics reachable from the receive loop are the enumerated ones; (R8) handlers keep the lock discipline and never run application code or block under Conn.mu. (R2t) a pointer obtained from a comma-ok type assertion is dereferenced, also inside a closure that captures it, only where ok holds; (R9) every tasks.Add(1) is matched by a Done on every path. (R2m) clearCapTable never gets Ptr.Message() of a pointer that was not tested with IsValid; (R4s) the pipelined dispatch in handleCall is dominated by \"the target entry is not the answer this handler just inserted\"; (R7b) answer.sendReturn returns an error only where finishReceived is established (handleBootstrap panics on any error from it). (R1p) the readers construct objects only under a bounds test of the constructed extent (shared with C01-R5). Does NOT decide that each reply is the protocol-correct one, nor liveness under real scheduling.",
+		Explanation: "Decides structural necessary conditions of robustness against a hostile peer: (R1) every index into Conn.questions/exports/embargoes is justified by a dominating length test, a non-nil find* result for the same id, or an id that comes from the local id generator; (R2) every entry read from a Conn table (or returned by findExport/findEmbargo) is tested non-nil before a field is accessed; (R3) the error passed to annotate/errors.Annotate (which panics on nil) is proven non-nil on its path, and a known-nil argument is always reported; (R4) a func-typed struct field that some site believes can be nil is tested before every call through it; (R5) message dispatch switches have non-panicking defaults and the target switch in handleCall covers what parseMessageTarget accepts; (R6) the error of every handler reaches receive's return; (R7) the explicit panics reachable from the receive loop are the enumerated ones; (R8) handlers keep the lock discipline and never run application code or block under Conn.mu. (R2t) a pointer obtained from a comma-ok type assertion is dereferenced, also inside a closure that captures it, only where ok holds; (R9) every tasks.Add(1) is matched by a Done on every path. (R2m) clearCapTable never gets Ptr.Message() of a pointer that was not tested with IsValid; (R4s) the pipelined dispatch in handleCall is dominated by \"the target entry is not the answer this handler just inserted\"; (R7b) answer.sendReturn returns an error only where finishReceived is established (handleBootstrap panics on any error from it). (R1p) the readers construct objects only under a bounds test of the constructed extent (shared with C01-R5). (R10) no implementation of Returner.Return reaches Conn.shutdown on its own goroutine (Return runs on the goroutine of an ongoing call of a local server, and shutdown may have to wait for that server's calls; shared with C09-R11). Does NOT decide that each reply is the protocol-correct one, nor liveness under real scheduling.",
 		Run:         runC08,
 	})
 }
@@ -47,6 +47,9 @@ func runC08(ctx *Ctx) {
 	scope := fileScope(ctx, "rpc/rpc.go", "rpc/answer.go", "rpc/export.go", "rpc/import.go", "rpc/question.go")
 	ruleLockBalance(ctx, "C08-R8", scope)
 	rulePolicy(ctx, "C08-R8p", allUnits, heldPolicy{noDynamic: []string{"rpc.Conn.mu"}, noBlock: []string{"rpc.Conn.mu"}, noRelock: []string{"rpc.Conn.mu"}})
+	// a peer that makes the Return of a call fail (a protocol violation is
+	// enough) must not be able to wedge the connection (shared with C09-R11)
+	ruleNoShutdownOnCallGoroutine(ctx, "C08-R10")
 	r := ctx.Rep
 	r.Floor("C08-R1", 10)
 	r.Floor("C08-R2", 15)
@@ -84,6 +87,12 @@ func tableOf(v ssa.Value, tables map[*types.Var]bool) (*types.Var, ssa.Value) {
 		if nx, ok := x.Tuple.(*ssa.Next); ok && x.Index == 2 {
 			if rg, ok := nx.Iter.(*ssa.Range); ok {
 				if fld, _ := ssaq.LoadedField(rg.X); fld != nil && tables[fld] {
+					// ranging over a map yields the values that were stored in
+					// it: when every store puts a fresh object there (absent
+					// ids are deleted, not set to nil) the value is not nil
+					if _, isMap := rg.X.Type().Underlying().(*types.Map); isMap && mapHoldsOnlyFresh[fld] {
+						return nil, nil
+					}
 					return fld, nil
 				}
 			}
@@ -128,6 +137,10 @@ func nonNilGuarded(b *ssa.BasicBlock, v ssa.Value) (bool, bool) {
 	return nonNil, isNil
 }
 
+// mapHoldsOnlyFresh: per map-typed table field, whether every MapUpdate in the
+// package stores a freshly allocated entry (computed by ruleTableEntryNil).
+var mapHoldsOnlyFresh = map[*types.Var]bool{}
+
 // ruleTableEntryNil is C08-R2 / C07-R2.
 func ruleTableEntryNil(ctx *Ctx, rule, pkgRel string) {
 	q := ssaq.For(ctx.Prog)
@@ -137,6 +150,30 @@ func ruleTableEntryNil(ctx *Ctx, rule, pkgRel string) {
 		return
 	}
 	finders := map[string]bool{"rpc.(*Conn).findExport": true, "rpc.(*Conn).findEmbargo": true}
+	// map tables into which only freshly allocated entries are ever stored
+	mapHoldsOnlyFresh = map[*types.Var]bool{}
+	for fld := range tables {
+		if _, isMap := fld.Type().Underlying().(*types.Map); isMap {
+			mapHoldsOnlyFresh[fld] = true
+		}
+	}
+	for _, f := range q.FuncsIn(pkgRel) {
+		for _, b := range f.Blocks {
+			for _, in := range b.Instrs {
+				mu, ok := in.(*ssa.MapUpdate)
+				if !ok {
+					continue
+				}
+				fld, _ := ssaq.LoadedField(mu.Map)
+				if fld == nil || !tables[fld] {
+					continue
+				}
+				if _, fresh := mu.Value.(*ssa.Alloc); !fresh {
+					mapHoldsOnlyFresh[fld] = false
+				}
+			}
+		}
+	}
 	total := 0
 	for _, f := range q.FuncsIn(pkgRel) {
 		if finders[ssaq.FuncName(f)] {
@@ -394,6 +431,12 @@ func indexJustified(f *ssa.Function, b *ssa.BasicBlock, ia *ssa.IndexAddr, fld *
 		if at.Op == token.NEQ && ssaq.IsNilConst(at.Y) {
 			if c, ok := at.X.(*ssa.Call); ok && finder != "" && ssaq.StaticCalleeName(c) == finder && len(c.Call.Args) == 2 && sameIndex(c.Call.Args[1], idx) {
 				return "dominated by " + finder + "(id) != nil for the same id"
+			}
+			// a lookup helper that did not exist on the reference tree and is
+			// itself verified: it returns nil or the entry at its id argument,
+			// which it reads only under a length test
+			if c, ok := at.X.(*ssa.Call); ok && len(c.Call.Args) == 2 && sameIndex(c.Call.Args[1], idx) && verifiedFinder(c.Call.StaticCallee(), fld) {
+				return "dominated by " + ssaq.StaticCalleeName(c) + "(id) != nil for the same id (a new lookup helper that reads the table only under a length test)"
 			}
 		}
 	}
@@ -859,6 +902,35 @@ func rulePanicCensus(ctx *Ctx, rule string, roots []string, table map[string][]s
 						allowed = all
 					}
 				}
+				if !allowed && !ssaq.IsNew(f) && len(table[name]) > 0 {
+					// the enumerated panics of f with another wording (a message
+					// that now names the offending value): f still has exactly as
+					// many explicit panics as the census lists for it, and every
+					// other one has its listed message, so this is the remaining one
+					np, matched := 0, 0
+					for _, b2 := range f.Blocks {
+						for _, in2 := range b2.Instrs {
+							p2, ok := in2.(*ssa.Panic)
+							if !ok || !p2.Pos().IsValid() {
+								continue
+							}
+							np++
+							if mi, ok := p2.X.(*ssa.MakeInterface); ok {
+								if c, ok := mi.X.(*ssa.Const); ok && c.Value != nil && c.Value.Kind() == constant.String {
+									for _, m := range table[name] {
+										if m == constant.StringVal(c.Value) {
+											matched++
+											break
+										}
+									}
+								}
+							}
+						}
+					}
+					if np == len(table[name]) && matched == np-1 {
+						allowed = true
+					}
+				}
 				if allowed {
 					r.Ok(rule, key, pos, "enumerated panic (programmer error or invariant with its own guarding rule)")
 				} else {
@@ -904,6 +976,48 @@ func wildcardMatch(pat, s string) bool {
 			return false
 		}
 		s = s[j+len(parts[i]):]
+	}
+	return true
+}
+
+// verifiedFinder: g is a helper that did not exist on the reference tree of the
+// form "find(id)": every result is nil or the entry of the table fld at g's id
+// parameter, and every index into the table inside g is justified by a length
+// test.
+func verifiedFinder(g *ssa.Function, fld *types.Var) bool {
+	if g == nil || !ssaq.IsNew(g) || len(g.Params) != 2 || len(g.Blocks) == 0 {
+		return false
+	}
+	id := g.Params[1]
+	for _, b := range g.Blocks {
+		for _, in := range b.Instrs {
+			switch x := in.(type) {
+			case *ssa.IndexAddr:
+				if f, _ := ssaq.LoadedField(x.X); f == fld {
+					if stripConv(x.Index) != ssa.Value(id) || indexJustified(g, b, x, fld, "") == "" {
+						return false
+					}
+				}
+			case *ssa.Return:
+				if len(x.Results) != 1 {
+					return false
+				}
+				if ssaq.IsNilConst(x.Results[0]) {
+					continue
+				}
+				ld, ok := x.Results[0].(*ssa.UnOp)
+				if !ok || ld.Op != token.MUL {
+					return false
+				}
+				ia, ok := ld.X.(*ssa.IndexAddr)
+				if !ok {
+					return false
+				}
+				if f, _ := ssaq.LoadedField(ia.X); f != fld || stripConv(ia.Index) != ssa.Value(id) {
+					return false
+				}
+			}
+		}
 	}
 	return true
 }
